@@ -4,7 +4,7 @@
    Statements: ProofsSystem.v (Reciprocals_stmt, Garner_stmt, Unique_stmt, Inverse_stmt, *_history_stmt,
    *_end_to_end_stmt, Functor_*_stmt). *)
 From Coq Require Import ZArith List.
-From C14 Require Import Model ProofsArith ProofsGarner ProofsSystem ProofsPoly.
+From C14 Require Import Model ProofsArith ProofsGarner ProofsSystem ProofsPoly ProofsBalanced.
 Import ListNotations.
 Local Open Scope Z_scope.
 
@@ -74,3 +74,12 @@ Print Assumptions C14_functor_noreduce_congruent.
    RnsToRing o RingToRns = id on canonical polynomials of degree below the number of points. *)
 Theorem C14_poly_crt : Poly_crt_full_stmt.   Proof. exact poly_crt_full. Qed.
 Print Assumptions C14_poly_crt.
+
+(* RNSsystem over ModularBalanced domains, odd pairwise coprime moduli: balanced digits, 2|V| <= prod - 1, the given
+   residues, and V is the only integer of that range with these residues *)
+Theorem C14_balanced_domains : Balanced_stmt.   Proof. exact balanced. Qed.
+Print Assumptions C14_balanced_domains.
+
+(* RNSsystemFixed: one combination step of the product tree is exact (partial: the recursion over the tree is not proved) *)
+Theorem C14_fixed_pair_step_partial : Fixed_pair_stmt.   Proof. exact fixed_pair. Qed.
+Print Assumptions C14_fixed_pair_step_partial.
